@@ -115,7 +115,11 @@ func (r ReqD) Gallina() string {
 		ss[i] = s.Gallina()
 	}
 	ext := "None"
-	if r.ExtT > 0 {
+	if r.ExtKind == "PreCancel" {
+		ext = "(Some (0, ECtxCanceled))" // the caller's context is already cancelled when the execution starts
+	} else if r.ExtKind == "PreDeadline" {
+		ext = "(Some (0, ECtxDeadline))"
+	} else if r.ExtT > 0 {
 		e := "ECtxCanceled"
 		if r.ExtKind == "Deadline" {
 			e = "ECtxDeadline"
